@@ -582,7 +582,7 @@ class Explorer:
             elif re.match(r'^<std::rc::Rc<T(, A)?> as std::ops::Deref>::deref$', name) and len(args) == 1:
                 # pointer to the shared object an Rc value denotes
                 ret, pure = ('rcptr', self.deref_ptr(st, fr, args[0])), True
-            elif re.match(r'^std::vec::Vec::<T>::new$', name):
+            elif re.match(r'^std::vec::Vec::<T>::(new|with_capacity)$', name):
                 ret, pure = ('vec', ()), True
             elif re.match(r'^std::vec::Vec::<T(, A)?>::push$', name) and len(args) == 2:
                 a0 = strip_upd(args[0])
@@ -637,6 +637,13 @@ class Explorer:
                 a0 = strip_upd(args[0])
                 if a0[0] == 'agg' and a0[1] == 'adt' and a0[2] == 'Some' and a0[5].endswith('Option') and a0[4]:
                     ret, pure = a0[4][0], True
+            elif re.match(r'^std::option::Option::<T>::unwrap_or$', name) and len(args) == 2:
+                a0 = strip_upd(args[0])
+                if a0[0] == 'agg' and a0[1] == 'adt' and a0[5].endswith('Option'):
+                    if a0[2] == 'Some' and a0[4]:
+                        ret, pure = a0[4][0], True
+                    elif a0[2] == 'None':
+                        ret, pure = args[1], True
             if handled:
                 ev['moved'] = True
                 ev['inlined'] = True     # effects are modelled exactly: no wipe of pointer memory
@@ -792,6 +799,40 @@ class Explorer:
     ATOM_FUNCS = ('boolean::sweep_event::SweepEvent::<F>::is_vertical', 'boolean::sweep_event::SweepEvent::<F>::is_below',
                   'boolean::sweep_event::SweepEvent::<F>::is_above')
 
+    OPTION_COMBINATORS = re.compile(r'^std::option::Option::<T>::(map|map_or|and_then|is_some_and|is_none_or)$')
+
+    def option_combinator(self, st, fr, t):
+        """Option::map / map_or / and_then / is_some_and / is_none_or applied with a closure of this crate that captures nothing
+        (or takes its environment by value): (kind, option value, closure value, closure body, default, callee name)"""
+        from facts import callee_name
+        if not self.inline or fr.depth >= 2 or t.get('target') is None:
+            return None
+        name = callee_name(t)
+        m = self.OPTION_COMBINATORS.match(name)
+        if not m:
+            return None
+        key = ('optcomb', id(t), st.epoch, len(st.path.events))
+        kind = m.group(1)
+        args = tuple(self.operand(st, fr, a) for a in t['args'])
+        if kind == 'map_or':
+            if len(args) != 3:
+                return None
+            opt, default, cval = args
+        else:
+            if len(args) != 2:
+                return None
+            opt, cval = args
+            default = None
+        c = strip_upd(cval)
+        if not (c[0] == 'agg' and c[1] == 'closure'):
+            return None
+        ccb = self.facts.bodies.get(c[2])
+        if ccb is None or ccb.loops() or len(ccb.blocks) > 60 or ccb.arg_count != 2:
+            return None
+        if c[4] and ccb.locals[1]['ty'].startswith('&'):
+            return None         # environment by reference with captures: not modelled
+        return kind, opt, cval, ccb, default, name
+
     def deep_inlinable(self, fr, t):
         """a local, loop-free helper with branches that no rule knows by name: expanded path by path, so that extracting a
         helper function out of an anchor does not change what the rules see"""
@@ -857,6 +898,48 @@ class Explorer:
             elif k == 'assert':
                 self.record_assert(st, fr, b, t)
                 b = t['target']
+            elif k == 'call' and self.option_combinator(st, fr, t) is not None:
+                kind, opt, cval, ccb, default, cname = self.option_combinator(st, fr, t)
+                dest, target = t['dest'], t['target']
+                st.path.events.append({'k': 'call', 'callee': cname, 'decl': cname, 'args': (opt,) + ((default,) if default is not None else ()) + (cval,),
+                                       'bb': b, 'line': t['line'], 'epoch': st.epoch, 'term': t, 'exp': t.get('exp', False), 'depth': fr.depth,
+                                       'in': body.id, 'inlined': True, 'expanded': True, 'pure': True, 'ret': ('c', ('zst', 'expanded'))})
+                o = strip_upd(simplify(subst(opt, st.path.conds)))
+                if o[0] == 'agg' and o[1] == 'adt' and o[5].endswith('Option'):
+                    cases = [(o[2], None)]
+                else:
+                    dv = simplify(subst(('discr', opt), st.path.conds))
+                    if is_const(dv):
+                        cases = [('Some' if int(dv[1]) == 1 else 'None', None)]
+                    else:
+                        cases = [('None', ('eq', 0)), ('Some', ('eq', 1))]
+                none_ret = {'map': NONE, 'and_then': NONE, 'map_or': default, 'is_some_and': ('c', False), 'is_none_or': ('c', True)}[kind]
+                for i, (variant, cond) in enumerate(cases):
+                    s2 = st.fork() if i < len(cases) - 1 else st
+                    if cond is not None:
+                        dvv = ('discr', opt)
+                        for (vv, cc) in normalise_cond(dvv, cond):
+                            s2.path.conds.append((vv, cc))
+                        s2.path.events.append({'k': 'branch', 'val': dvv, 'cond': cond, 'bb': b, 'line': t['line'], 'depth': fr.depth})
+                    if variant == 'None':
+                        self.store(s2, self.loc_of(s2, fr, dest), none_ret)
+                        self._run(s2, target, fr, cont)
+                        continue
+                    if o[0] == 'agg' and o[2] == 'Some' and o[4]:
+                        payload = o[4][0]
+                    else:
+                        payload = simplify(('field', ('variant', opt, 'Some'), '0'))
+                    f2 = Frame(ccb, (cval, payload), fr.depth + 1)
+                    f2.parent = fr
+                    self._frames[f2.id] = f2
+
+                    def resume(st2, ret, fr=fr, dest=dest, target=target, cont=cont, kind=kind):
+                        if kind == 'map':
+                            ret = ('agg', 'adt', 'Some', ('0',), (ret,), 'std::option::Option')
+                        self.store(st2, self.loc_of(st2, fr, dest), ret)
+                        self._run(st2, target, fr, cont)
+                    self._run(s2, 0, f2, resume)
+                return
             elif k == 'call':
                 cb = self.deep_inlinable(fr, t)
                 if cb is not None:
